@@ -234,6 +234,8 @@ type Node struct {
 	MergeTwo  bool
 	// Derive (Struct only): after the schema was assembled it is replaced by a derived schema that selects nothing away:
 	// 1 = s.Pick(all keys...), 2 = s.Omit(), 3 = s.Extend(z.Schema{}), 4 = s.Pick(map of all keys). Documented to behave like s.
+	// 5 = the schema is first built with a stand-in for one primitive field, USED once, and then s = base.Extend({that key: the real field}):
+	//     an override of a field of a base that has already been executed.
 	Derive int
 }
 
